@@ -236,8 +236,10 @@ class GLibEventLoop(EventLoop):
         self._glib_idle_enabled = True
 
     def _glib_idle_callback(self):
-        for callback in self._idle_callbacks.values():
-            callback()
+        # idle callbacks may remove idle callbacks: iterate over a copy, skip the removed ones
+        for handle, callback in tuple(self._idle_callbacks.items()):
+            if handle in self._idle_callbacks:
+                callback()
         self._glib_idle_enabled = False
         return False  # ask glib not to call again (or we would be called
 
